@@ -111,7 +111,7 @@ func (e *Engine) Load() error {
 		Mode:    packages.LoadAllSyntax,
 		Dir:     e.repo,
 		Overlay: e.overlay,
-		Env:     append(os.Environ(), "GOFLAGS=-mod=mod", "GOPROXY=off", "GOSUMDB=off", "GOTOOLCHAIN=local"),
+		Env:     append(os.Environ(), "GOFLAGS=-mod=readonly", "GOPROXY=off", "GOSUMDB=off", "GOTOOLCHAIN=local"),
 	}
 	var patterns []string
 	for _, ip := range harnessPkgs {
